@@ -296,7 +296,7 @@ def run(prop, replay_file=None):
             files = sorted(glob.glob(simdir + "/tr_*"))
             for f in files:
                 states = [st for _n, _a, st in tlc.parse_sim_file(f)]
-                events, mism = broker_conf.replay(states)
+                events, mism = broker_conf.replay(states, printing=(nbeh % 4 == 3))
                 nbeh += 1
                 ncalls += len(events) - 1
                 d = digest(events)
@@ -405,7 +405,7 @@ def transition_cover(rep, prop, w, feats_all, depth=3):
             continue
         done.add((s, d))
         states = [nodes[x] for x in path[s]] + [nodes[d]]
-        events, mism = broker_conf.replay(states)
+        events, mism = broker_conf.replay(states, printing=(n % 4 == 3))
         n += 1
         feats_all[digest(events)] = behaviour_features(events)
         for step, tag, detail in attribute(mism):
@@ -466,6 +466,14 @@ def validate_random_traces(rep, prop, w, n, sd):
             rep.warnings.append("trace %s exceeds the 32-bit budget; skipped" % tr["id"])
             continue
         traces.append(tr)
+    # large volumes with a tiny residue (ids far from the ordinary seeds); the budget is checked the same way
+    nbig = max(6, n // 25)
+    for i in range(nbig):
+        tr = broker_random.gen_big_trace(sd * 1009 + i)
+        tr["id"] = 900000000 + sd * 1009 + i
+        if broker_random.max_abs_int(tr) < 2 ** 31 - 1:
+            traces.append(tr)
+    rep.cov["large_volume_traces"] = nbig
     nvalid = 0
     nev = 0
     for k in range(0, len(traces), 300):
@@ -689,14 +697,18 @@ def run_replay_file(rep, path):
     try:
         tlc.stage_all(w)
         if payload.get("kind") == "calls":
-            tr = broker_random.record_calls(1, payload["t0"], payload["quote"], payload["fee"], payload["calls"])
+            # the same calls with event printing off and on (the original run used one of the two)
+            trs = [broker_random.record_calls(1 + k, payload["t0"], payload["quote"], payload["fee"], payload["calls"], printing=bool(k))
+                   for k in (0, 1)]
         else:
-            tr = broker_random.gen_trace(payload["trace_seed"])
-        verdicts, r = validate_traces(w, [tr])
+            trs = [broker_random.gen_trace(payload["trace_seed"])]
+        verdicts, r = validate_traces(w, trs)
         rep.cov["states"], rep.cov["transitions"] = r.distinct, r.generated
-        for (step, p, clause) in sorted(verdicts[tr["id"]]):
-            _route(rep, prop, "%s:%s" % (p, clause), "recorded trace rejected at event %d: %s" % (
-                step, json.dumps(tr["ev"][step - 1])[:700]), step, payload, [e["call"] for e in tr["ev"][:step]])
+        for tr in trs:
+            for (step, p, clause) in sorted(verdicts[tr["id"]]):
+                _route(rep, prop, "%s:%s" % (p, clause), "recorded trace rejected at event %d: %s" % (
+                    step, json.dumps(tr["ev"][step - 1])[:700]), step, payload, [e["call"] for e in tr["ev"][:step]])
+        tr = trs[0]
         rep.cov["evaluations"] = len(tr["ev"])
     finally:
         shutil.rmtree(w, ignore_errors=True)
